@@ -524,6 +524,9 @@ func (q *Seq) Compare(r *SeqRealm, what string, exp []Exp, pending *MCall) {
 					n++
 					got = exp[i].To
 					gotReg, _ = symOf(exp[i].Text, "R#")
+					if strings.HasPrefix(exp[i].Text, "ERROR(") {
+						gotReg = -1 // the refusal was the outcome
+					}
 				}
 				usedExp[i] = true
 			}
